@@ -10,6 +10,7 @@ CONSTANT MaxQ = 2
 CONSTANT Dev = {}
 INIT Init
 NEXT Next
+VIEW MView
 INVARIANT TypeOK
 INVARIANT P0_ProtocolAlphabet
 INVARIANT P1_AckBeforeRun
